@@ -190,6 +190,8 @@ def _make(np, di, si, li):
         flat = (np.arange(m) * 3 - 7).astype(dt)
     base = flat[:n].reshape(shape)
     lay = LAYOUTS[li]
+    if base.ndim == 0:
+        return base.copy()              # (ascontiguousarray would promote a 0-d array to 1-d)
     if lay == "C":
         return np.ascontiguousarray(base)
     if lay == "F":
